@@ -1239,14 +1239,23 @@ func c01CloneAligned(c *Ctx) {
 						return 2
 					}
 				}
-			case *ssa.Call:
-				if h := x.Call.StaticCallee(); h != nil && newHelpers[h] && len(h.Blocks) > 0 {
+			case *ssa.Call, *ssa.Extract:
+				idx := 0
+				call, _ := x.(*ssa.Call)
+				if ex, isEx := x.(*ssa.Extract); isEx {
+					call, _ = ex.Tuple.(*ssa.Call)
+					idx = ex.Index
+				}
+				if call == nil {
+					return 0
+				}
+				if h := call.Call.StaticCallee(); h != nil && newHelpers[h] && len(h.Blocks) > 0 {
 					kind := -1
 					for _, r := range returnsOf(h) {
-						if len(r.Results) != 1 {
+						if idx >= len(r.Results) {
 							return 0
 						}
-						k := alignKind(r.Results[0], depth+1)
+						k := alignKind(r.Results[idx], depth+1)
 						if kind >= 0 && k != kind {
 							return 0
 						}
